@@ -102,7 +102,7 @@ def enum_requests(seed):
                 dep = atom(f"=cat/{p}-{v}") if form == "=" else atom(f"cat/{p}") if form == "bare" else atom(f"=cat/{p}-{v}:0")
                 written = rnd.choice(([], ["*"], ["amd64"], ["~x86", "hppa"], ["^"], ["*", "alpha"], ["-"], ["^", "x86"], ["ia64"], ["amd64", "*"]))
                 lines.append((dep, tuple(written), p, v, form))
-            for stable, cc, only_new, flt, allarches in itertools.product((False, True), ((), ("amd64", "hppa")), (False, True), ((), ("amd64", "x86")), (False, True)):
+            for stable, cc, only_new, flt, allarches in itertools.product((False, True), ((), ("amd64", "hppa"), ("amd64", "nosucharch")), (False, True), ((), ("amd64", "x86")), (False, True)):
                 if allarches and not stable:
                     continue
                 cases += 1
@@ -157,7 +157,7 @@ def enum_requests(seed):
                         want = None
                         if not (set(kws) - set(ARCHES)):
                             if not kws:
-                                kws = list(cc)
+                                kws = [k for k in cc if k in ARCHES]   # addressed to the cc arches -- those the repository knows
                             elif cc:
                                 kws = [k for k in kws if k in cc]
                             want = kws
@@ -165,11 +165,55 @@ def enum_requests(seed):
                         if sorted(got[0][1]) != sorted(want):
                             note(model, f"{str(dep)} {list(written)} (stable={stable}, cc={list(cc)}) resolved to {got[0][1]}, the statement gives {sorted(want)}")
     return {"name": "C40.requests.bounded_enumeration", "bound": f"{120 if thorough else 40} seeded repositories (3 packages x <= 3 versions, 13 keyword spellings incl. prefix keywords and an arch missing from the arch list) x 12 request lists of 1..3 lines "
-            "(10 keyword spellings incl. * ^ -, =cpv / bare / slotted specs) x 24 option combinations", "cases": cases, "failures": fails}
+            "(10 keyword spellings incl. * ^ -, =cpv / bare / slotted specs) x 36 option combinations (cc lists with and without an arch the repository does not know)", "cases": cases, "failures": fails}
+
+
+def enum_best_version(seed):
+    """select_best_version (which version a request that names no version resolves to) against its documented rule: the newest keyworded
+    version; failing that the newest non-live one; failing that the newest -- over every set of <= 4 versions with keyworded / live flags"""
+    import functools
+    from pkgcore.ebuild import keywording as K
+
+    @functools.total_ordering
+    class P:
+        def __init__(self, ver, keyworded, live):
+            self.ver, self.keywords, self.live = ver, (("~amd64",) if keyworded else ()), live
+
+        def __eq__(self, o):
+            return self.ver == o.ver
+
+        def __lt__(self, o):
+            return self.ver < o.ver
+
+        def __hash__(self):
+            return hash(self.ver)
+
+        def __repr__(self):
+            return f"v{self.ver}{'K' if self.keywords else ''}{'L' if self.live else ''}"
+    fails, cases = [], 0
+    for n in range(0, 5):
+        for flags in itertools.product(((False, False), (True, False), (False, True), (True, True)), repeat=n):
+            pk = [P(i + 1, k, l) for i, (k, l) in enumerate(flags)]
+            for order in ([pk, pk[::-1]] if n > 1 else [pk]):
+                cases += 1
+                try:
+                    got = K.select_best_version(list(order))
+                except Exception as e:
+                    got = f"{type(e).__name__}: {e}"
+                want = None
+                for tier in (lambda p: bool(p.keywords), lambda p: not p.live, lambda p: True):
+                    c = [p for p in pk if tier(p)]
+                    if c:
+                        want = max(c, key=lambda p: p.ver)
+                        break
+                if got is not want and len(fails) < 4:
+                    fails.append({"model": {"versions": [repr(p) for p in order]}, "detail": f"select_best_version({order}) (K: keyworded, L: live) picks {got!r}; the documented rule picks {want!r}"})
+    return {"name": "C40.select_best_version.bounded_enumeration", "bound": "every list of <= 4 versions, each keyworded or not and live or not, ascending and descending", "cases": cases, "failures": fails}
 
 
 def tasks():
     return [
+        Task("C40.select_best_version", None, [(KW, "select_best_version")], enumerate=enum_best_version),
         Task("C40.filter_prefix_keywords", t_filter_prefix, [(KW, "filter_prefix_keywords")]),
         Task("C40.requests", None, [(KW, "match_packages"), (KW, "suggested_keywords")], enumerate=enum_requests),
     ]
